@@ -43,7 +43,7 @@ structure BStmt (env : Env) (n : Nat) : Prop where
     (renderFor env n x items i body ctx).run.run w = (.ok toks, w') → Bare toks
   node : ∀ nd ctx w toks w', tnode nd = true → ctxFree ctx = true → WInv w →
     (renderNode env n nd ctx).run.run w = (.ok toks, w') → Bare toks
-  tag : ∀ name kwargs only dyn body ctx w toks w', isDynName name = false → fbody body = true → ctxFree ctx = true → WInv w →
+  tag : ∀ name kwargs only dyn body ctx w toks w', isDynName name = false → gbody body = true → ctxFree ctx = true → WInv w →
     (renderCompTag env n name kwargs only dyn body ctx).run.run w = (.ok toks, w') → Bare toks
   impl : ∀ name kw fills o ctx w toks w', isDynName name = false → ctxFree ctx = true → ctxFree o = true → slotFreeKvs kw = true →
     GoodFills fills → WInv w →
@@ -833,7 +833,7 @@ theorem loop_root_exp (env : Env) (hlib : GoodLib env) (n : Nat) (w w1 w' : Worl
 tree of components the library unfolds under it. -/
 theorem tree_root_output (env : Env) (hlib : GoodLib env) (n : Nat) (name : Str) (kwargs : List (Str × Expr)) (only dyn : Bool)
     (body : List Node) (ctx : Ctx) (w w' : World) (toks : List Tok)
-    (hd : isDynName name = false) (hb : fbody body = true) (hc : ctxFree ctx = true) (hw : WInv w) (hext : isExtracting ctx = false)
+    (hd : isDynName name = false) (hb : gbody body = true) (hc : ctxFree ctx = true) (hw : WInv w) (hext : isExtracting ctx = false)
     (hpar : parentOf (if only || env.isolated then isolatedCopy ctx else ctx) = none)
     (h : (renderCompTag env n name kwargs only dyn body ctx).run.run w = (.ok toks, w')) :
     Exp env [Tok.hole w.nextId []] toks := by
